@@ -75,6 +75,17 @@ CHECKS = {
         technique='CrossHair symbolic execution (z3) of glencoe_writer._to_json composed with GlencoeReader._parse_tree/_parse_constraints at dict level on symbolic cardinalities within the Glencoe fragment; z3 equivalence of constraint skeletons',
         text='Writer and reader run symbolically at dict level for every fragment shape with all cardinalities symbolic (group kinds, optional flags, GENOR min/max); names are concrete because the code hashes them, so the name quantifier is covered by the native file sweep only. Bounded.',
         note='Trusted: CrossHair + patches, z3, the json stub contract. N<=4/5 within the Glencoe fragment. Name alphabet: native sweep, not solver-decided.'),
+    'C10': dict(
+        category='translation_validation', design_ref='6 C10',
+        technique='z3 equivalence queries (all 2^n selections at once) between the reference configuration semantics and independent interpreters of the exported SXFM / propositional text, per enumerated model',
+        text='Every export is treated as a program: the real writers run on every enumerated model (all shapes, all cardinalities, constraint trees over the eight logical operators), the text is interpreted by an independent interpreter of the target format, '
+             'and one z3 query per program decides equivalence with the source semantics over all selections; a sat answer is a concrete disagreeing selection. Bounded.',
+        note='Trusted: z3, tree2z3 reference semantics, the interpreters in fmverif/props/interp.py. N<=4/5. AST.get_clauses (dependency) runs as is; its XOR/EQUIVALENCE defect is a listed known finding.'),
+    'C11': dict(
+        category='translation_validation', design_ref='6 C11',
+        technique='z3 equivalence queries (all 2^n selections at once) between the reference configuration semantics and an independent interpreter of the emitted Clafer subset, per enumerated model; identifier consistency on the parsed text',
+        text='The real Clafer writer runs on every enumerated fragment model with constraints and attributes; the text is interpreted under Clafer group / cardinality semantics and one z3 query per program decides equivalence over all selections; declarations and uses of identifiers are compared. Bounded.',
+        note='Trusted: z3, tree2z3, interp.clafer2z3. N<=4/5 within the Clafer fragment.'),
 }
 
 NOT_YET = {}
